@@ -217,4 +217,23 @@ CHECKS = {
         note="Not decided: exactness of the cover for every subset (an "
              "induction over the tree); the rules are its per-step necessary "
              "conditions. Trusted: the region word layout as documented."),
+    "C16": dict(
+        technique="order-type evaluation of the clamp expression, constant "
+                  "folding of the bound formulas over the finite format "
+                  "table (widths 1..64 x signedness), representability "
+                  "check of the folded clip bounds, normal forms of scales",
+        text="float_to_fp returns clamp(int(scale*x), min, max) - "
+             "truncation first, clamp in exact integers - on all orderings; "
+             "its bounds fold to the format's extremes for all 128 formats "
+             "(R1). NumpyFloatToFixConverter folds to the same bounds for "
+             "its 8 admitted formats, same scale, complete dtype table "
+             "(R2). Each folded integer clip bound must not round outwards "
+             "as a double, since np.clip compares in floating point (R3). "
+             "Inverse scales 2^-n_frac (multiply) / 2^n_frac (divide); "
+             "fix_to_float's sign-bit test and 2^n adjustment (R4).",
+        note="Not decided: monotonicity, one-LSB accuracy and exact round "
+             "trip over the float line (floating-point semantics). Known "
+             "findings K3: both 64-bit formats' upper clip bound rounds up "
+             "(large positive -> most negative / 0), listed in "
+             "known_findings.json."),
 }
